@@ -92,8 +92,8 @@ func ruleErrFlow(c *Ctx) {
 			ord[s.calleeName]++
 			key := fmt.Sprintf("%s:%s#%d", fn, s.calleeName, ord[s.calleeName])
 			ok, why := c.errorFate(fd, s)
-			if !ok {
-				if reason, audited := errflowExceptions[key]; audited {
+			if !ok && s.form == "blank" {
+				if reason := c.blankErrorExcused(fd, s); reason != "" {
 					c.ob(rule, key, s.call.Pos(), true, "")
 					c.note("errflow exception %s: %s", key, reason)
 					continue
@@ -226,7 +226,7 @@ func ruleSingleDecision(c *Ctx) {
 			}
 			// a negated conjunction !(err != nil && !ContinueOnError) is the disjunction we want
 			if cl.neg {
-				conj := splitConj(condLit{cl.e, false})
+				conj := splitConj(condLit{e: cl.e, neg: false})
 				all := len(conj) > 0
 				for _, l := range conj {
 					if k := classify(l); k != 1 && k != -2 {
@@ -263,4 +263,43 @@ func sortedKeysPos(m map[string]token.Pos) []string {
 	}
 	sort.Strings(out)
 	return out
+}
+
+// blankErrorExcused recognises the two audited situations in which an error assigned to _ loses nothing
+// (both found in the reference tree; described by what makes them sound, not by where they are):
+//   - probe-then-load: the same callee is called again later in the function and that call's error is
+//     propagated, so a failure of the probe only means the fallback runs and reports;
+//   - re-read: the same callee was already called earlier with the very same arguments and that error was
+//     propagated, so the second call cannot fail differently.
+func (c *Ctx) blankErrorExcused(fd *ast.FuncDecl, s errSite) string {
+	self, _ := c.callee(s.call).(*types.Func)
+	if self == nil {
+		return ""
+	}
+	args := func(call *ast.CallExpr) string {
+		parts := []string{}
+		for _, a := range call.Args {
+			parts = append(parts, exprString(a))
+		}
+		return strings.Join(parts, ",")
+	}
+	for _, o := range c.errorSites(fd) {
+		if o.call == s.call {
+			continue
+		}
+		g, _ := c.callee(o.call).(*types.Func)
+		if g != self {
+			continue
+		}
+		if ok, _ := c.errorFate(fd, o); !ok {
+			continue
+		}
+		if o.call.Pos() > s.call.Pos() {
+			return "probe whose failure falls through to a later call of " + s.calleeName + " whose error is propagated"
+		}
+		if args(o.call) == args(s.call) {
+			return "second call of " + s.calleeName + " on the same arguments as an earlier call whose error was propagated"
+		}
+	}
+	return ""
 }
